@@ -88,7 +88,7 @@ let show_sig = function
 let c_sig pc s = match cache_of pc with None -> "noparse" | Some c -> show_sig (deobfuscate (c_remap_class c) s)
 
 let handle (line : string) : string =
-  let toks = String.split_on_char ' ' line in
+  let toks = List.filter (fun t -> not (String.length t > 0 && t.[0] = '=')) (String.split_on_char ' ' line) in
   let st = !cur in
   match toks with
   | ["M"; h] -> cur := mk_mstate (str_of_hex h); "M"
